@@ -1114,7 +1114,22 @@ func (g *G) setIndexStmt() []ts.Stmt {
 	v := cands[g.intn("slice", 0, len(cands)-1)]
 	depth := g.intn("si-depth", 0, g.cfg.ExprDepth)
 	var idx ts.Expr
-	switch g.pick("si-kind", 45, 20, 20, 15) {
+	others := []*varInfo{}
+	for _, o := range g.lenTargets() {
+		if o.Name != v.Name {
+			others = append(others, o)
+		}
+	}
+	wOther := 0
+	if len(others) > 0 {
+		wOther = 14
+	}
+	switch g.pick("si-kind", 45, 20, 20, 15, wOther) {
+	case 4:
+		// the length of ANOTHER slice or string as index (shorter, equal or longer than this slice)
+		o := others[g.intn("other", 0, len(others)-1)]
+		idx = ts.Len{X: ts.VarRef{Name: o.Name, Ty: o.Ty}}
+		g.tag("index-len-of-other")
 	case 0:
 		idx = ts.IntLit{V: int64(g.intn("idx", 0, v.MinLen+2))}
 	case 1:
